@@ -1,4 +1,4 @@
-import NitroVerif.Lemmas.ParseDocSelMain
+import NitroVerif.Lemmas.ParseDocErase
 /-!
 # C07 — render ∘ parse for selections, selection sets, … up to whole documents
 
@@ -57,5 +57,78 @@ theorem render_parse_selection_set (τ : Trivia) (hτ : ∀ q, Ws (τ q)) (ss : 
 example : rSelSet (fun _ => []) false 0 [.field (some ("a", {})) "b" {} [("x", {}, .int "1" {})] [{ name := "d" }]
       (some [.field none "c" {} [] [] none]), .spread "F" {} [] {}, .inline (some ("T", {})) [] [.field none "e" {} [] [] none] {}] =
     "{a:b(x:1)@d{c} ...F ...on T{e}}".toList := by decide
+
+
+/-! ### types with trivia, variable definitions, operations, fragments -/
+
+/-- `render_parse_type_trivia`: `render_parse_type` with ARBITRARY trivia between the tokens of a type (`[ Int ! ] !`):
+    wherever the rendering of a well-formed type occurs in an input, followed by a token that does not begin with `!`, the
+    `Type` rule succeeds with one pair and `build_type` returns the type with the true position of every name and `[`. -/
+theorem render_parse_type_trivia (τ : Trivia) (hτ : ∀ q, Ws (τ q)) (t : GType) (hwf : WF t) (sep : Bool)
+    (inp : List Char) (off : Nat) (X : List Char) (h : inp.drop off = rType τ sep off t ++ X)
+    (hX : HeadNot (fun d => trivia d ∨ d = '!') X) (hglue : sep = false → HeadNot nameCont X) (fuel bfuel : Nat)
+    (hf : B (rType τ sep off t).length + 20 ≤ fuel) (hb : (rType τ sep off t).length + 1 ≤ bfuel) :
+    ∃ e pair, Peg.run gList fuel R.«Type» inp off .nonAtomic = some (e, [pair]) ∧
+      e ≤ off + (rType τ sep off t).length ∧ buildType (Ctx.spec inp) bfuel pair = .ok (wpType τ inp off t) := by
+  obtain ⟨pr, hr, _, hbld⟩ := (type_all τ hτ t hwf).2 sep off (· = '!') rfl (hasAt_of_drop h) (nxt_of_drop h hX hglue)
+  obtain ⟨e, hrun, hle⟩ := run_of_runsK hr (fuel := fuel) (by omega)
+  exact ⟨e, pr, hrun, hle, hbld bfuel hb⟩
+
+/-- `render_parse_variable_definition`: `$name: Type = default @directives` with arbitrary trivia after every token;
+    what follows must begin with none of `!`, `=`, `@`, `(`, `.`, `"` (in a `VariablesDefinition`: `$` or `)`). -/
+theorem render_parse_variable_definition (τ : Trivia) (hτ : ∀ q, Ws (τ q)) (v : VarDef) (hwf : WFVarDef v) (sep : Bool)
+    (inp : List Char) (off : Nat) (X : List Char) (h : inp.drop off = rVarDef τ sep off v ++ X)
+    (hX : HeadNot (fun d => trivia d ∨ varBad d) X) (hglue : sep = false → HeadNot nameCont X) (fuel bfuel : Nat)
+    (hf : B (rVarDef τ sep off v).length + 30 ≤ fuel) (hb : (rVarDef τ sep off v).length ≤ bfuel) :
+    ∃ e pair, Peg.run gList fuel R.VariableDefinition inp off .nonAtomic = some (e, [pair]) ∧
+      e ≤ off + (rVarDef τ sep off v).length ∧
+      buildVariableDefinition (Ctx.spec inp) bfuel pair = .ok (wpVarDef τ inp sep off v) := by
+  obtain ⟨pr, hr, _, hbld⟩ := varDefT τ hτ v hwf (hasAt_of_drop h) (nxt_of_drop h hX hglue)
+  obtain ⟨e, hrun, hle⟩ := run_of_runsK hr (fuel := fuel) (by omega)
+  exact ⟨e, pr, hrun, hle, hbld bfuel hb⟩
+
+/-- `render_parse_executable_definition` (OperationDefinition — with its keyword, name, variable definitions, directives,
+    or as the `{ … }` shorthand when `sh off` says so and the operation is a plain anonymous query — and
+    FragmentDefinition): wherever the rendering of a well-formed definition occurs in an input, followed by a token, the
+    `ExecutableDefinition` rule succeeds with one pair on which `build_executable_definition` returns the definition with
+    the true position of every token. (`#import` lines: see the OPEN block of `Props/C07.lean`.) -/
+theorem render_parse_executable_definition (τ : Trivia) (hτ : ∀ q, Ws (τ q)) (sh : Nat → Bool) (d : ExecDef)
+    (hwf : WFDef d) (sep : Bool) (inp : List Char) (off : Nat) (X : List Char)
+    (h : inp.drop off = rDef τ sh sep off d ++ X) (hX : HeadNot trivia X) (fuel bfuel : Nat)
+    (hf : B (rDef τ sh sep off d).length + 40 ≤ fuel) (hb : (rDef τ sh sep off d).length ≤ bfuel) :
+    ∃ e pair, Peg.run gList fuel R.ExecutableDefinition inp off .nonAtomic = some (e, [pair]) ∧
+      e ≤ off + (rDef τ sh sep off d).length ∧
+      buildExecutableDefinition (Ctx.spec inp) bfuel pair = .ok (wpDef τ inp sh sep off d) := by
+  have ht : Tok (At inp (off + (rDef τ sh sep off d).length)) := by
+    simp only [Tok, At]; rw [drop_after h]; exact hX
+  obtain ⟨pr, hr, _, hbld⟩ := defT τ hτ sh d hwf sep off (hasAt_of_drop h) ht
+  obtain ⟨e, hrun, hle⟩ := run_of_runsK hr (fuel := fuel) (by omega)
+  exact ⟨e, pr, hrun, hle, hbld bfuel hb⟩
+
+/-- **`parse_render_operation_document`**: for EVERY non-empty list `doc` of well-formed operations and fragments, every
+    trivia assignment `τ` (arbitrary whitespace, commas, BOM, comments at the start of the text and after every token) and
+    every choice `sh` of where the `{ … }` shorthand is used, the model of `parse_operation_document` — the generated grammar's
+    `ExecutableDocument` rule with the model's own depth bounds, `validate_unicode_escapes`, `build_operation_document` —
+    applied to the rendering returns exactly the document, every position being the line/column of the first character of
+    the corresponding token (`wpDoc`). -/
+theorem parse_render_operation_document (τ : Trivia) (hτ : ∀ q, Ws (τ q)) (sh : Nat → Bool) (doc : List ExecDef)
+    (hne : doc ≠ []) (hwf : ∀ d ∈ doc, WFDef d) :
+    parseOp (rDoc τ sh doc) = .ok (wpDoc τ sh (rDoc τ sh doc) doc) :=
+  parseOp_rDoc τ hτ sh doc hne hwf
+
+/-- … in the terms of the property: `parseModel (render A τ) = A` — the document returned differs from `doc` only in
+    positions (`ReadDoc.erasePos`: every `Pos` of every node erased), and the positions are the true ones (above). -/
+theorem parse_render_operation_document_erase (τ : Trivia) (hτ : ∀ q, Ws (τ q)) (sh : Nat → Bool) (doc : List ExecDef)
+    (hne : doc ≠ []) (hwf : ∀ d ∈ doc, WFDef d) :
+    ∃ A, parseOp (rDoc τ sh doc) = .ok A ∧ ReadDoc.erasePos A = ReadDoc.erasePos doc :=
+  ⟨_, parseOp_rDoc τ hτ sh doc hne hwf, erase_wpDoc τ sh _ doc⟩
+
+/-- the hypotheses are satisfiable: a query with a variable, a fragment, and the shorthand, in canonical trivia -/
+example : rDoc (fun _ => []) (fun _ => true)
+    [.op { kind := .query, name := some ("Q", {}), vars := [{ name := "v", ty := .nonNull (.named "Int" {}), default := some (.int "1" {}) }],
+           sel := [.field none "a" {} [("x", {}, .var "v" {})] [] none] },
+     .frag { name := "F", cond := "T", sel := [.field none "b" {} [] [] none] },
+     .op { kind := .query, sel := [.spread "F" {} [] {}] }] =
+    "query Q($v:Int!=1){a(x:$v)}fragment F on T{b}{...F}".toList := by decide
 
 end NitroVerif.C07
